@@ -284,6 +284,43 @@ def projection(xmask: int = 0, reverse: bool = False):
     return check
 
 
+def projection_layouts(xmask: int = 0, other_first: bool = False):
+    """ONE rewriter serves two layouts that share a type name (schema evolution; extend_record keeps the name): each record is
+    projected on its own fields, in either order of arrival."""
+    from flow.record import RecordDescriptor
+    from flow.record.stream import RecordFieldRewriter
+
+    D = RecordDescriptor("t/proj", [("record", "a"), ("string", "b"), ("record", "c")])
+    E = RecordDescriptor("t/proj", [("string", "b"), ("record", "q"), ("record", "a")])
+    layouts = {"D": (["a", "b", "c"], {"a": "record", "b": "string", "c": "record"}), "E": (["b", "q", "a"], {"a": "record", "b": "string", "q": "record"})}
+    xlist = [n for n, b in zip(["a", "b", "c"], (xmask & 1, xmask & 2, xmask & 4)) if b]
+
+    def check(fa: bool, fb: bool, fq: bool, va: int, vc: int) -> bool:
+        """
+        post: _
+        """
+        flist = [n for n, b in zip(["a", "b", "q"], (fa, fb, fq)) if b]
+        if not flist and not xlist:
+            return True
+        recs = {"D": D(va, "text", vc, _source="S", _generated=GEN), "E": E("etext", vc, va, _source="S2", _generated=GEN)}
+        vals = {"D": {"a": va, "b": "text", "c": vc}, "E": {"b": "etext", "q": vc, "a": va}}
+        rw = RecordFieldRewriter(fields=flist, exclude=xlist)
+        for k in ("E", "D", "E") if other_first else ("D", "E", "D"):
+            out = rw.rewrite(recs[k])
+            names, types = layouts[k]
+            want = [n for n in flist if n in names and n not in xlist] if flist else [n for n in names if n not in xlist]
+            if [(types[n], n) for n in want] != list(out._desc.get_field_tuples()) or out._desc.name != "t/proj":
+                return False
+            for n in want:
+                if not _same(getattr(out, n), vals[k][n]):
+                    return False
+            if out._source != recs[k]._source:
+                return False
+        return True
+
+    return check
+
+
 def shapes_extend(tier, seed):
     two = ["%d%d" % p for p in itertools.product(range(5), repeat=2)]
     three = ["%d%d%d" % p for p in itertools.product(range(5), repeat=3)]
@@ -320,6 +357,7 @@ def obligations(tier, seed):
         obs.append(ob(f"O3-grouped/{s}", "xh", "grouped", {"shape": s}, timeout=to, group="O3-grouped"))
     for xmask in range(8):
         for rev in (False, True):
+            obs.append(ob(f"O4-projection-layouts/x{xmask}{'o' if rev else ''}", "xh", "projection_layouts", {"xmask": xmask, "other_first": rev}, timeout=to * 2, group="O4-projection", bounds="2^3 projection lists, two layouts under one type name through one rewriter, both arrival orders"))
             obs.append(ob(f"O4-projection/x{xmask}{'r' if rev else ''}", "xh", "projection", {"xmask": xmask, "reverse": rev}, timeout=to * 2, group="O4-projection", bounds="2^4 projection lists x replace target, exclusion subset and order fixed by the driver"))
     return obs
 
@@ -392,6 +430,22 @@ def replay(res):
                 got = [n for _, n in out._desc.get_field_tuples()]
                 if got != want or any(getattr(out, n) != getattr(rec, n) for n in want):
                     probs.append(f"-F {flist} -X {xlist}: fields {got}, expected {want}")
+        # one rewriter, two layouts under one type name, both arrival orders (typed fields, public API)
+        E = RecordDescriptor("t/proj", [("string", "b"), ("varint", "q"), ("varint", "a")])
+        other = E("etext", 7, 8)
+        for flist in ([], ["a"], ["b", "q"], ["q", "a", "b"]):
+            for xlist in ([], ["a"], ["b", "c"]):
+                if not flist and not xlist:
+                    continue
+                for order in ((rec, other, rec), (other, rec, other)):
+                    rw = RecordFieldRewriter(fields=flist, exclude=xlist)
+                    for r_ in order:
+                        out = rw.rewrite(r_)
+                        names = [n for _, n in r_._desc.get_field_tuples()]
+                        want = [n for n in flist if n in names and n not in xlist] if flist else [n for n in names if n not in xlist]
+                        got = [n for _, n in out._desc.get_field_tuples()]
+                        if got != want or any(getattr(out, n) != getattr(r_, n) for n in want):
+                            probs.append(f"one rewriter (-F {flist} -X {xlist}) over two layouts of 't/proj': record with fields {names} rewritten to fields {got}, expected {want}")
         r2 = rec._replace(a=9)
         if (r2.a, r2.b, r2.c) != (9, "text", 3) or (rec.a, rec.b, rec.c) != (1, "text", 3):
             probs.append("_replace changed more than the named field or the original")
